@@ -333,6 +333,15 @@ class SimSSLSocket(SimSocket, ssl.SSLSocket):
     def __del__(self):
         pass
 
+    # The kernel's SO_RCVTIMEO / SO_SNDTIMEO make the underlying read()/write() fail with EAGAIN; for a
+    # socket without a Python-level timeout the ssl module takes that for "try again" and retries for
+    # ever.  Only settimeout() makes an SSL socket time out.
+    def _rcv_timeout(self):
+        return self._timeout
+
+    def _snd_timeout(self):
+        return self._timeout
+
 
 class FakeTLSContext:
     """Stub for ssl.SSLContext: consumes a fake ClientHello record with
@@ -349,8 +358,18 @@ class FakeTLSContext:
         self.net.sim.note("tls-wrap", conn.id)
         need = 5
         hdr = b""
+        def recv_retrying(k):
+            # (the handshake reads through the same retry loop)
+            while True:
+                try:
+                    return sock.recv(k)
+                except BlockingIOError:
+                    if sock._timeout is not None:
+                        raise
+                    self.net.count("tls_read_retried_after_kernel_timeout")
+
         while len(hdr) < need:
-            d = sock.recv(need - len(hdr))
+            d = recv_retrying(need - len(hdr))
             if not d:
                 raise ssl.SSLError(ssl.SSL_ERROR_EOF, "EOF occurred in violation of protocol")
             hdr += d
@@ -359,7 +378,7 @@ class FakeTLSContext:
         ln = struct.unpack(">H", hdr[3:5])[0]
         body = b""
         while len(body) < ln:
-            d = sock.recv(ln - len(body))
+            d = recv_retrying(ln - len(body))
             if not d:
                 raise ssl.SSLError(ssl.SSL_ERROR_EOF, "EOF occurred in violation of protocol")
             body += d
